@@ -32,4 +32,16 @@ CLAIMED.update({
   "technique": "symbolic execution to operator words; normalisation and word equality; phase identities by exact rational-function cancellation (sympy) and z3",
  },
 })
+CLAIMED.update({
+ "C20": {
+  "text": "Frame clause `modifies nothing (parameters, module-level objects)` for every public function and method reachable from `import aotools` (108 functions): one obligation per statement that can write into an existing object (item / attribute store, augmented assignment, out=, in-place methods, mutating library calls, calls of repository functions that write a parameter), discharged by a flow-sensitive may-alias analysis of the real AST (views vs copies per NumPy call table); one no-hidden-state obligation per function (no legacy global RandomState / random / clock, no write or read of module-level mutable objects, no memoising decorator). Holds for all inputs and all call sequences because no alias of a parameter or of module state is ever written. Listed finding: optimal_grouping draws from the global RandomState.",
+  "note": "A-ENGINE (aovc/effects.py is trusted code), A-NP: the view / copy / in-place classification of NumPy functions and methods in aovc/effects.py is assumed; determinism of NumPy kernels is assumed; the batch clause is decided by C09, C15, C16, C17. Thorough tier adds a bounded native before/after comparison on one recipe input per function (labelled bounded).",
+  "technique": "frame-condition checking by flow-sensitive may-alias / effect analysis of the real AST (one obligation per mutating statement); native replay on recipe inputs",
+ },
+ "C06": {
+  "text": "Frame clauses for every function of phasescreen.py and infinitephasescreen.py (and phase_covariance): no hidden state is read or written (no global RandomState, random, time, module-level mutable object, memoisation), and seed-flow obligations: every numpy.random.default_rng call is seeded by the caller's seed / generator on every path (a truthiness test of the seed does not count as a None test), every draw comes from such a generator or from the per-instance generator self._R, self._R is assigned only from default_rng(self.random_seed) and self.random_seed only from the constructor parameter. With the assumed contracts of default_rng / Generator the screen and every later row are terms over (arguments, seed) only, for every interleaving with other calls.",
+  "note": "A-ENGINE, A-NP (default_rng(int) deterministic, default_rng(Generator) is the same object, Generator.normal mutates only its receiver; FFT and numba kernels deterministic). 'Different seeds / unseeded calls differ' is probabilistic and not decided. Thorough tier adds bounded native reproduction histories.",
+  "technique": "frame-condition checking (effect analysis) plus seed-flow analysis of the real AST; native replay of interleaved histories",
+ },
+})
 NOT_APPLICABLE = {}
